@@ -118,6 +118,19 @@ def gen_plan(rng, tier, idx, opts):
             else:
                 ops.append({"op": "post_filter", "seed": s()})
                 has_filter = True
+        elif r < 0.53:
+            # the caller re-initialises from the SAME ndarray object it handed before, split differently among the users
+            def part(total, k):
+                cuts = sorted(rng.sample(range(1, total), k - 1)) if k > 1 else []
+                return [b - a for a, b in zip([0] + cuts, cuts + [total])]
+            if sum(Nr) >= K and sum(Nt) >= K:
+                old = list(Nr)
+                Nr, Nt = part(sum(Nr), K), part(sum(Nt), K)
+                ops.append({"op": "init", "Nr": Nr, "Nt": Nt, "NtE": NtE, "reuse_handed": True,
+                            "M": {"shape": [sum(Nr), sum(Nt) + sum(NtE)], "np_seed": s()}})
+                if has_filter and old != Nr:
+                    ops.append({"op": "post_filter", "seed": s() if rng.random() < 0.6 else None})
+                    has_filter = ops[-1]["seed"] is not None
         elif r < 0.76:
             ops.append({"op": "read", "what": rng.choice(reads)})
         elif r < 0.80:
@@ -263,6 +276,11 @@ def execute(plan):
                     else:
                         M = arr(op["M"])
                         handed = M.copy()
+                        prev = getattr(m, "handed", None)
+                        if op.get("reuse_handed") and prev is not None and prev.shape == M.shape:
+                            handed = prev                   # the very same ndarray object as last time
+                            M = np.array(prev)
+                            bump(res["probes"], "reinit_from_same_ndarray_other_partition")
                         if ext:
                             ch.init_from_channel_matrix(handed, Nr, Nt, K, NtE)
                         else:
